@@ -6,5 +6,5 @@ CONSTANTS
   EarlyExit = "code"
 INIT Init
 NEXT Next
-INVARIANTS TypeOK OnlyWhatFailed AllAsked QuestionOnlyIfFailed Verdict Containment KillSwitch Progress
+INVARIANTS TypeOK OnlyWhatFailed AllAsked QuestionOnlyIfFailed Verdict Containment KillSwitch Progress ErrorPathNotZone
 CHECK_DEADLOCK FALSE
